@@ -3,6 +3,7 @@ package refint
 import (
 	"fmt"
 	"sort"
+	"strconv"
 	"strings"
 )
 
@@ -872,6 +873,72 @@ func installSpecials(in *Interp, p *Package) {
 			return nil, in.errf("first argument is not a function")
 		}
 		return a[0], nil
+	}))
+	def(p, "expr", special("expr", 1, 1, func(in *Interp, env *Env, a []*V) (*V, *Err) {
+		// (expr pattern): % is the single argument, %1 %2 ... numbered arguments,
+		// %&optional / %&rest as documented; placeholders are those written
+		// directly in the pattern
+		body := a[0]
+		n, short, opt, rest := 0, false, false, false
+		scan := func(c *V) *Err {
+			if c.Q || c.T != TSym || !strings.HasPrefix(c.S, "%") {
+				return nil
+			}
+			switch num := c.S[1:]; {
+			case num == "":
+				if n > 0 {
+					return in.errf("invalid mixing of expr argument symbols")
+				}
+				short = true
+			case num == "&rest":
+				rest = true
+			case num == "&optional":
+				opt = true
+			default:
+				k, err := strconv.Atoi(num)
+				if err != nil || k < 0 || k > 1024 || strings.HasPrefix(num, "&") || strings.HasPrefix(num, "+") {
+					return in.errf("invalid expr argument symbol")
+				}
+				if short {
+					return in.errf("invalid mix of expr argument symbols")
+				}
+				if k > n {
+					n = k
+				}
+			}
+			return nil
+		}
+		switch {
+		case body.Q:
+		case body.T == TSym:
+			if e := scan(body); e != nil {
+				return nil, e
+			}
+		case body.T == TList:
+			for _, c := range body.C {
+				if e := scan(c); e != nil {
+					return nil, e
+				}
+			}
+		case body.T == TInt || body.T == TFloat || body.T == TStr:
+		default:
+			return nil, in.errf("invalid internal expression type")
+		}
+		var fs []*V
+		if short {
+			fs = append(fs, Sym("%"))
+		} else {
+			for i := 1; i <= n; i++ {
+				fs = append(fs, Sym(fmt.Sprintf("%%%d", i)))
+			}
+		}
+		if opt {
+			fs = append(fs, Sym("&optional"), Sym("%&optional"))
+		}
+		if rest {
+			fs = append(fs, Sym("&rest"), Sym("%&rest"))
+		}
+		return in.newLambda(env, List(fs), []*V{body})
 	}))
 	def(p, "handler-bind", special("handler-bind", 1, -1, opHandlerBind))
 	def(p, "ignore-errors", special("ignore-errors", 0, -1, func(in *Interp, env *Env, a []*V) (*V, *Err) {
